@@ -24,7 +24,10 @@ CLOCKS = ["8", "8pm", "8 am", "12 am", "12pm", "20:00", "8:30", "08:15", "7.25 p
           "0800", "2015", "2018", "8 uhr", "8h", "8h30", "20 uhr 15", "8 o'clock", "five",
           "fünf", "acht uhr", "midnight", "mitternacht", "half 8", "halb acht",
           "quarter to 9", "viertel nach 3", "quarter past eight", "half past 7", "13", "0",
-          "23:59", "00:00", "24", "5", "9", "17", "3", "12", "1013", "0932", "1147", "1230"]
+          "23:59", "00:00", "24", "5", "9", "17", "3", "12", "1013", "0932", "1147", "1230",
+          # the wrap-around branches of the spoken forms (hour 0 / 12 / 1)
+          "quarter to midnight", "half to midnight", "viertel vor mitternacht", "quarter to 1",
+          "halb eins", "quarter to 12 am", "viertel vor 0 uhr", "half past 12"]
 DOMS = ["1.", "5.", "5th", "1st", "22nd", "3rd", "31.", "30.", "29.", "15", "12ten", "28",
         "31st", "30th"]
 DATES = ["12.12.2020", "31.04.2020", "29.02.2019", "29.2.", "31.6.", "30.02.", "5.10.",
